@@ -235,12 +235,12 @@ func (s *Scanner) parseCertificate(
 
 	switch err.(type) {
 	case x509.NonFatalErrors:
-		s.entriesWithNonFatalErrors++
+		atomic.AddInt64(&s.entriesWithNonFatalErrors, 1)
 		if verifCTHook != nil {
 			verifCTHook("ctr", -1, 3, index, nil)
 		}
 	default:
-		s.unparsableEntries++
+		atomic.AddInt64(&s.unparsableEntries, 1)
 		if verifCTHook != nil {
 			verifCTHook("ctr", -1, 2, index, nil)
 		}
@@ -350,7 +350,7 @@ func (s *Scanner) processEntry(entry ct.LogEntry, foundCert func(*ct.LogEntry, s
 			foundPrecert(&entry, s.opts.Name)
 		}
 
-		s.precertsSeen++
+		atomic.AddInt64(&s.precertsSeen, 1)
 		if verifCTHook != nil {
 			verifCTHook("ctr", -1, 1, entry.Index, nil)
 		}
@@ -502,8 +502,9 @@ func (s *Scanner) Scan(foundCert func(*ct.LogEntry, string),
 		//oldProc := int64(0)
 		for range ticker.C {
 
-			throughput := float64(s.certsProcessed) / time.Since(startTime).Seconds()
-			remainingCerts := int64(stopIndex) - int64(s.opts.StartIndex) - s.certsProcessed
+			certsProcessed := atomic.LoadInt64(&s.certsProcessed)
+			throughput := float64(certsProcessed) / time.Since(startTime).Seconds()
+			remainingCerts := int64(stopIndex) - int64(s.opts.StartIndex) - certsProcessed
 			if verifCTHook != nil {
 				verifCTHook("tick", -1, remainingCerts, 0, nil)
 			}
@@ -515,8 +516,8 @@ func (s *Scanner) Scan(foundCert func(*ct.LogEntry, string),
 
 			remainingSeconds := int(float64(remainingCerts) / throughput)
 			remainingString := humanTime(remainingSeconds)
-			s.logger.Infof("Processed: %d %s certs (to index %d). Throughput: %3.2f ETA: %s\n", s.certsProcessed, s.opts.Name,
-				s.opts.StartIndex+int64(s.certsProcessed), throughput, remainingString)
+			s.logger.Infof("Processed: %d %s certs (to index %d). Throughput: %3.2f ETA: %s\n", certsProcessed, s.opts.Name,
+				s.opts.StartIndex+certsProcessed, throughput, remainingString)
 
 			updater <- int64(stopIndex) - remainingCerts
 		}
